@@ -53,8 +53,8 @@ func verifierCircuitMaker(in *inst.Instance) func() frontend.Circuit {
 }
 
 type siteRow struct {
-	Site, Hint             string
-	Count                  uint64
+	Site, Hint              string
+	Count                   uint64
 	MaxObs, Allowed, Honest []int
 }
 
